@@ -179,6 +179,9 @@ CONV_ROUTES = [
     ("to_value", lambda q, u: unyt_array(np.atleast_1d(q.to_value(u)), u)),
     ("convert_to_units", lambda q, u: (q.convert_to_units(u), q)[1]),
     ("to_unitobj", lambda q, u: q.to(Unit(u))),
+    # a list of readings on mixed scales is coerced to the scale of its first element
+    ("list-coercion", lambda q, u: unyt_array([unyt_quantity(1.0, u)] + [qi for qi in np.atleast_1d(q)])[1:]),
+    ("list-coercion-tuple", lambda q, u: unyt_array((unyt_quantity(1.0, u),) + tuple(qi for qi in np.atleast_1d(q)))[1:]),
 ]
 
 
